@@ -258,7 +258,7 @@ class NetModel {
  private:
   int nbCells_;
   std::vector<int> netLimits_;
-  std::vector<int> netWeight_;
+  std::vector<float> netWeight_;
   std::vector<int> netCells_;
   std::vector<float> netPinOffsets_;
 
